@@ -18,14 +18,25 @@ pub fn case(i: u64, seed: u64) -> Scenario {
     k /= 10;
     let fps = [60u16, 30, 120][(k % 3) as usize];
     k /= 3;
-    let delay = [0u8, 2][(k % 2) as usize];
-    k /= 2;
+    let delay = [0u8, 2, 6][(k % 3) as usize];
+    k /= 3;
     let mut sc = Scenario::basic(mix(seed ^ 0xc15, k), 2);
     sc.fps = fps;
     // desync detection off / every frame / every 5th / every 12th: checksum reports share the endpoint's
     // timers and send queue with the quality reports the estimates are built from
     sc.desync = [0u8, 1, 5, 12][(mix(seed ^ 0xd5c, i) % 4) as usize];
-    sc.max_pred = 40;
+    // mostly a window that never limits the lead; sometimes the default or a small one: lead + input delay +
+    // latency (in frames) may then exceed the window, which the estimates must survive
+    sc.max_pred = [40u8, 40, 8, 4][((mix(seed ^ 0xd5c, i) >> 8) % 4) as usize];
+    // ... as long as the leader never stalls at the window (a stalling leader has no steady lead): it needs the
+    // follower's input for frame cur - window, and the follower's newest input is delay - latency frames from its own frame
+    let lat_frames = (lat as i32 * fps as i32 + 999) / 1000;
+    // ... and as long as the acknowledgement round trip fits into the 2 x window frames of received inputs an
+    // endpoint keeps for decoding (beyond that packets are only decodable after a re-acknowledgement and inputs
+    // arrive later than the link latency: a degraded regime in which the estimates are off by more than a frame)
+    if lead.abs() + lat_frames - delay as i32 + 3 > sc.max_pred as i32 || 2 * lat_frames + 3 > 2 * sc.max_pred as i32 {
+        sc.max_pred = 40;
+    }
     sc.sched = 0;
     sc.fine_poll = true;
     for p in sc.peers.iter_mut() {
@@ -45,7 +56,7 @@ pub fn case(i: u64, seed: u64) -> Scenario {
     sc.notify_ms = 3000;
     sc
 }
-pub const NCASES: u64 = 15 * 10 * 3 * 2;
+pub const NCASES: u64 = 15 * 10 * 3 * 3;
 
 pub fn eval(sc: &Scenario) -> CaseResult {
     let mut opts = RunOpts::default();
@@ -63,6 +74,14 @@ pub fn eval(sc: &Scenario) -> CaseResult {
     // warm-up: the averaging window is 30 frames and reports arrive every 200 ms
     let warm = pause_tick + 60 + (600 / fm) as i32;
     r.summary = format!("lead={} latency={}ms fps={} delay={} | frames_ahead A {:?} B {:?} | ping {:?}", k, lat, sc.fps, sc.peers[0].delay, a.fa_samples.last(), b.fa_samples.last(), a.stats_samples.last());
+    // a steady lead needs sessions that never stall at their prediction window after the warm-up (only possible with
+    // the small windows of this enumeration): otherwise the lead itself fluctuates and nothing is claimed
+    let steady = a.last_stall_tick as i32 <= pause_tick + 30 && b.last_stall_tick as i32 <= pause_tick + 30;
+    if !steady {
+        r.classes.push("stalled_at_the_window(lead_not_steady)");
+        r.nontrivial = false;
+        return r;
+    }
     if r.violation.is_none() {
         let bmap: std::collections::BTreeMap<i32, i32> = b.fa_samples.iter().copied().collect();
         let mut compared = 0;
@@ -77,7 +96,7 @@ pub fn eval(sc: &Scenario) -> CaseResult {
                 break;
             }
             if (fb + k).abs() > 1 {
-                r.violation = Some(("C15.frames_ahead_follower".into(), format!("tick {ta}: peer1 runs {} frames ahead of peer0 but its frames_ahead() is {fb}", -k)));
+                r.violation = Some(("C15.frames_ahead_follower".into(), format!("tick {ta}: peer1 runs {} frames ahead of peer0 but its frames_ahead() is {fb}; samples (tick, A, B): {:?}; last stalls at ticks {} / {}", -k, a.fa_samples.iter().filter(|x| (x.0 - ta).abs() <= 60).map(|x| (x.0, x.1, bmap.get(&x.0).copied().unwrap_or(99))).collect::<Vec<_>>(), a.last_stall_tick, b.last_stall_tick)));
                 break;
             }
             if (fa + fb).abs() > 1 {
@@ -130,15 +149,24 @@ pub fn eval(sc: &Scenario) -> CaseResult {
                         if *t < 1000 {
                             r.violation = Some(("C15.stats_too_early".into(), format!("network_stats() returned numbers only {t} ms after the connection started")));
                         }
-                        let _ = i;
                         if *t as i64 >= warm as i64 * fm {
                             let ping = *ping as i64;
                             if ping < 2 * lat || ping > 2 * lat + fm + 2 {
                                 r.violation = Some(("C15.ping".into(), format!("network_stats().ping = {ping} ms on a link with a true round trip of {} ms (tick {} ms)", 2 * lat, fm)));
                             }
                             if let Some((_, _, Ok((_, _, q_rfb, _)))) = q.stats_samples.iter().find(|x| x.0 == *t) {
-                                if (lfb - q_rfb).abs() > 1 {
-                                    r.violation = Some(("C15.behind_mismatch".into(), format!("one side reports local_frames_behind {lfb}, the other side's remote_frames_behind is {q_rfb}")));
+                                // the remote figure is what the peer reported up to (200 ms + latency) ago: a change of
+                                // the local figure shows up there with that lag, so only a mismatch that persists for
+                                // four consecutive samples (640 ms and more) counts
+                                let persistent = (0..4).all(|j| {
+                                    i >= j && match (&p.stats_samples[i - j], q.stats_samples.iter().find(|x| x.0 == p.stats_samples[i - j].0)) {
+                                        ((_, _, Ok((_, l, _, _))), Some((_, _, Ok((_, _, r2, _))))) => (l - r2).abs() > 1,
+                                        _ => false,
+                                    }
+                                });
+                                if (lfb - q_rfb).abs() > 1 && persistent {
+                                    let near = |v: &Vec<(u64, usize, Result<(u128, i32, i32, usize), u8>)>| v.iter().filter(|x| x.0 + 700 >= *t && x.0 <= *t + 100).map(|x| format!("{}:{:?}", x.0, x.2.as_ref().map(|y| (y.1, y.2)).ok())).collect::<Vec<_>>().join(" ");
+                                    r.violation = Some(("C15.behind_mismatch".into(), format!("at {t} ms one side reports local_frames_behind {lfb}, the other side's remote_frames_behind is {q_rfb}; (local,remote) samples of the first: {} / of the second: {}", near(&p.stats_samples), near(&q.stats_samples))));
                                 }
                             }
                         }
@@ -233,7 +261,7 @@ pub fn run_prop(ctx: &Ctx) -> PropReport {
     let seed = ctx.seed;
     let reps = ctx.tier.pick(2u64, 8u64);
     rep.part(|| run_enum(ctx, "steady_lead",
-        "bounded enumeration: lead k in -7..=7 x symmetric latency {0,5,10,20,35,50,75,100 ms} x fps {60,30,120} x input delay {0,2}; two peers, window 40, lock-stepped ticks after a warm-up, polls every millisecond between ticks (as the documented loop polls every iteration); oracle, sampled every 10 ticks after the warm-up: |frames_ahead_A - k| <= 1, |frames_ahead_B + k| <= 1, |sum| <= 1; every WaitRecommendation raised only with frames_ahead() >= 3 as read right after that call, skip_frames == frames_ahead(), >= 60 frames apart, and given at all when |k| >= 4; 2L <= ping <= 2L + one tick; one side's local_frames_behind == the other's remote_frames_behind (+-1); NotEnoughData before 1 s, numbers afterwards; non-trivial = >= 10 post-warm-up samples and stats available",
+        "bounded enumeration: lead k in -7..=7 x symmetric latency {0,5,10,20,35,50,75,100 ms} x fps {60,30,120} x input delay {0,2}; two peers, window 40, lock-stepped ticks after a warm-up, polls every millisecond between ticks (as the documented loop polls every iteration); oracle, sampled every 10 ticks after the warm-up: |frames_ahead_A - k| <= 1, |frames_ahead_B + k| <= 1, |sum| <= 1; every WaitRecommendation raised only with frames_ahead() >= 3 as read right after that call, skip_frames == frames_ahead(), >= 60 frames apart, and given at all when |k| >= 4; 2L <= ping <= 2L + one tick; one side's local_frames_behind == the other's remote_frames_behind (+-1, a mismatch must persist for 4 samples: the remote figure lags by the report interval plus the latency); NotEnoughData before 1 s, numbers afterwards; non-trivial = >= 10 post-warm-up samples and stats available",
         NCASES * reps, move |i| case(i % NCASES, mix(seed, i / NCASES)), eval, true));
     rep.part(|| run_enum(ctx, "level_after_drop",
         "enumeration: lag 3..=7 x fps {60,30,120} x latency {0,10,30 ms}: three peers, two run level, the third runs lag frames behind for 150 frames and then dies; once it is timed out and the averaging window has passed, frames_ahead() of the two survivors must be within one frame of zero and no WaitRecommendation may be raised any more",
